@@ -43,9 +43,16 @@ static int
 varint_decode(ByteBuffer *b, const size_t maxoctets, union varint64 *n)
 {
     const unsigned char *buf = b->data + b->offset;
+    /* Decoding reads memory the caller handed in, which need not have been
+     * filled through the buffer API (used may be zero), so the buffer's
+     * size is the limit here. */
+    const size_t avail = (b->offset < b->size) ? (b->size - b->offset) : 0u;
     n->u = 0u;
 
     for (size_t i = 0u; i < maxoctets; ++i) {
+        if (i >= avail) {
+            return -ENODATA;
+        }
         const unsigned char datum = buf[i];
         n->u |= (uint64_t)(datum & VARINT_DATA_MASK) << (i * VARINT_DATA_BITS);
         if (varint_done(datum)) {
